@@ -274,9 +274,17 @@ pub fn fold_exprs(exprs: &[Expression]) -> Result<Term, ParseError> {
     let mut depth = 0;
     let mut output = Vec::new();
 
-    for expr in exprs.iter() {
+    for (n, expr) in exprs.iter().enumerate() {
         match *expr {
-            Abstraction => depth += 1,
+            Abstraction => {
+                if output.is_empty() {
+                    depth += 1
+                } else {
+                    // an abstraction that is not leading extends to the end of its group
+                    output.push(fold_exprs(&exprs[n..])?);
+                    break;
+                }
+            }
             Variable(i) => output.push(Var(i)),
             Sequence(ref exprs) => output.push(fold_exprs(exprs)?),
         }
